@@ -49,6 +49,7 @@ inductive VOp
 structure Config where
   stoppable : List Bool          -- per waiter: does its receiver have a (real) stop token
   scripts : List (List VOp)      -- controller scripts; controller 0 is T0
+  startLatched : Bool := false   -- constructor argument `startSignalled` (the constructor calls set())
 
 /-- waiter pcs: 0 call, 1 register cb, 2 push, 3 fast-path try_complete, 4 fast-path reschedule,
     5 load sync_complete, 6 fetch_or(started), 7 stop(): try_remove, 8 stop(): try_complete,
@@ -79,6 +80,7 @@ structure Ct where
   loc : List Nat     -- set(): the stack-local drained list
   cur : Nat          -- waiter being resumed / stopped
   r : Bool
+  sure : Bool        -- history, ready(): when the call began a set() had returned and no reset() had begun
   deriving DecidableEq, Repr
 
 structure St where
@@ -87,17 +89,22 @@ structure St where
   ws : List Wt
   cs : List Ct
   offThread : Bool   -- history: a completion ran on a thread other than the waiter's own
+  setDone : Bool     -- history: a set() call has returned (or the event was constructed signalled)
+  resetBegun : Bool  -- history: a reset() call has begun
   bad : Nat          -- history: 1 completed twice, 2 value without a set, 3 done without a stop request,
                      -- 4 value although a stop() had removed the waiter, 5 done although no stop() removed it,
-                     -- 6 operation state accessed after its completion was delivered
+                     -- 6 operation state accessed after its completion was delivered,
+                     -- 7 ready() answered false although a set() had returned before the call began and no
+                     --   reset() began before it returned
   deriving DecidableEq, Repr
 
 def Wt.init : Wt := ⟨0, false, false, false, false, false, false, false, 0, false, false, false, 0, 0⟩
-def Ct.init : Ct := ⟨0, 0, [], 0, false⟩
+def Ct.init : Ct := ⟨0, 0, [], 0, false, false⟩
 
 def init (cfg : Config) : St :=
-  { latched := false, main := [], ws := cfg.stoppable.map (fun _ => Wt.init),
-    cs := cfg.scripts.map (fun _ => Ct.init), offThread := false, bad := 0 }
+  { latched := cfg.startLatched, main := [], ws := cfg.stoppable.map (fun _ => Wt.init),
+    cs := cfg.scripts.map (fun _ => Ct.init), offThread := false, setDone := cfg.startLatched,
+    resetBegun := false, bad := 0 }
 
 abbrev Lbl := Nat × Option String
 def ev (t : Nat) (txt : String) : Lbl := (t, some txt)
@@ -191,8 +198,8 @@ def stepC (cfg : Config) (s : St) (j : Nat) : Option (Lbl × St) :=
     match (cfg.scripts.getD j [])[c.ip]? with
     | none => none
     | some .set => some (ev t "set.begin", setT s j { c with pc := 1 })
-    | some .reset => some (ev t "reset.begin", setT s j { c with pc := 5 })
-    | some .ready => some (ev t "ready.begin", setT s j { c with pc := 6 })
+    | some .reset => some (ev t "reset.begin", setT { s with resetBegun := true } j { c with pc := 5 })
+    | some .ready => some (ev t "ready.begin", setT s j { c with pc := 6, sure := s.setDone && !s.resetBegun })
     | some (.stop k) => some (ev t s!"stop{k}.begin", setT s j { c with pc := 8, cur := k })
     | some .joinCtl => if othersDone cfg s j then some (tau t, setT s j { c with ip := c.ip + 1 }) else none
   | 1 =>  -- latch_and_drain(local)
@@ -202,7 +209,7 @@ def stepC (cfg : Config) (s : St) (j : Nat) : Option (Lbl × St) :=
       some (tau t, setT { s with latched := true, main := [], ws := ws' } j { c with pc := 2, loc := s.main })
   | 2 =>  -- local.pop_front()
     match c.loc with
-    | [] => some (ev t "set.end", setT s j { c with pc := 0, ip := c.ip + 1 })
+    | [] => some (ev t "set.end", setT { s with setDone := true } j { c with pc := 0, ip := c.ip + 1 })
     | i :: rest => some (tau t, setT s j { c with pc := 3, loc := rest, cur := i })
   | 3 =>  -- resume_: try_complete
     let s := touch s c.cur
@@ -220,7 +227,9 @@ def stepC (cfg : Config) (s : St) (j : Nat) : Option (Lbl × St) :=
   | 5 => some (tau t, setT { s with latched := false } j { c with pc := 14 })   -- unlatch
   | 14 => some (ev t "reset.end", setT s j { c with pc := 0, ip := c.ip + 1 })
   | 6 => some (tau t, setT s j { c with pc := 7, r := s.latched })
-  | 7 => some (ev t (if c.r then "ready.end 1" else "ready.end 0"), setT s j { c with pc := 0, ip := c.ip + 1 })
+  | 7 =>
+    let s1 := if c.sure && !s.resetBegun && !c.r then flag s 7 else s
+    some (ev t (if c.r then "ready.end 1" else "ready.end 0"), setT s1 j { c with pc := 0, ip := c.ip + 1 })
   | 8 =>  -- request_stop()
     let w := getW s c.cur
     if w.cbReg then some (tau t, setT (setW s c.cur { w with stopReq := true, cbRun := t + 1 }) j { c with pc := 9 })
@@ -267,7 +276,8 @@ def final (cfg : Config) (s : St) : Bool :=
     * no waiter completes twice, none with value without a set(), none with done without a stop
       request, none with value after a stop() removed it from the list (it won the cancel race),
       none with done unless a stop() removed it, and the operation state is never accessed after
-      its completion was delivered (`bad = 0`);
+      its completion was delivered; ready() never answers false when a set() had returned before
+      the call began and no reset() began before it returned (`bad = 0`);
     * no deadlock;
     * at the end every waiter has completed exactly once (all configurations end with a set()). -/
 def safe (cfg : Config) (s : St) : Bool :=
@@ -292,21 +302,23 @@ def decWt (n o : Nat) : Wt :=
    dig n (o+6) == 1, dig n (o+7) == 1, dig n (o+8), dig n (o+12) == 1, dig n (o+13) == 1, dig n (o+9) == 1,
    dig n (o+10), dig n (o+11)⟩
 
-/-- 9 digits -/
-def encCt (c : Ct) : Nat := dcons c.ip (dcons c.pc (dcons c.cur (dcons (b2n c.r) (encLN c.loc))))
-def decCt (n o : Nat) : Ct := ⟨dig n o, dig n (o+1), decL n (o+4), dig n (o+2), dig n (o+3) == 1⟩
+/-- 10 digits -/
+def encCt (c : Ct) : Nat := dcons c.ip (dcons c.pc (dcons c.cur (dcons (b2n c.r) (dcons (b2n c.sure) (encLN c.loc)))))
+def decCt (n o : Nat) : Ct := ⟨dig n o, dig n (o+1), decL n (o+5), dig n (o+2), dig n (o+3) == 1, dig n (o+4) == 1⟩
 
-/-- layout: nW, nC, latched, offThread, bad, main (5), waiters (14 each), controllers (9 each), terminator -/
+/-- layout: nW, nC, latched, offThread, bad, setDone, resetBegun, main (5), waiters (14 each),
+    controllers (10 each), terminator -/
 def encSt (s : St) : Nat :=
   dcons s.ws.length (dcons s.cs.length (dcons (b2n s.latched) (dcons (b2n s.offThread) (dcons s.bad
-    (encLN s.main + 16 ^ 5 * (packW 14 encWt s.ws + 16 ^ (14 * s.ws.length) *
-      (packW 9 encCt s.cs + 16 ^ (9 * s.cs.length))))))))
+    (dcons (b2n s.setDone) (dcons (b2n s.resetBegun)
+      (encLN s.main + 16 ^ 5 * (packW 14 encWt s.ws + 16 ^ (14 * s.ws.length) *
+        (packW 10 encCt s.cs + 16 ^ (10 * s.cs.length))))))))))
 
 def decSt (n : Nat) : St :=
-  { latched := dig n 2 == 1, main := decL n 5,
-    ws := (List.range (dig n 0)).map (fun i => decWt n (10 + 14 * i)),
-    cs := (List.range (dig n 1)).map (fun j => decCt n (10 + 14 * dig n 0 + 9 * j)),
-    offThread := dig n 3 == 1, bad := dig n 4 }
+  { latched := dig n 2 == 1, main := decL n 7,
+    ws := (List.range (dig n 0)).map (fun i => decWt n (12 + 14 * i)),
+    cs := (List.range (dig n 1)).map (fun j => decCt n (12 + 14 * dig n 0 + 10 * j)),
+    offThread := dig n 3 == 1, setDone := dig n 5 == 1, resetBegun := dig n 6 == 1, bad := dig n 4 }
 
 def coded : Coded St := { enc := encSt, dec := decSt, M := 1021, W := 256 }
 
@@ -321,8 +333,12 @@ def cfgCancel : Config := { stoppable := [true], scripts := [[.joinCtl, .set], [
 /-- one cancellable waiter: stop request vs set() -/
 def cfgCancelVsSet : Config := { stoppable := [true], scripts := [[], [.stop 0], [.set]] }
 
+/-- the event is constructed signalled and never reset: ready() probes race with a late wait (whose
+    push_front_unless_latched takes the head link's lock) and a redundant set() -/
+def cfgReadyBusy : Config := { stoppable := [false], scripts := [[], [.ready, .ready], [.set]], startLatched := true }
+
 def configs : List (String × Config) :=
   [("v2_two_waiters", cfgTwoWaiters), ("v2_set_reset", cfgSetReset), ("v2_cancel", cfgCancel),
-   ("v2_cancel_vs_set", cfgCancelVsSet)]
+   ("v2_cancel_vs_set", cfgCancelVsSet), ("v2_ready_busy", cfgReadyBusy)]
 
 end Unifex.Proto.EventV2
